@@ -74,3 +74,39 @@ neu("read-body-helper", [
     (AS, "use futures::StreamExt;\n", ""),
     (API, "pub(crate) fn api_scope() -> Scope {", _HELPER)],
     "the duplicated body-reading loop extracted (unchanged) into a shared async helper")
+
+neu("rename-private-fns", [
+    (API, "    fn client_id_header(&self, req: &HttpRequest) -> Result<ClientId> {", "    fn authenticated_client(&self, req: &HttpRequest) -> Result<ClientId> {"),
+    (AV, "server_state.client_id_header(&req)?", "server_state.authenticated_client(&req)?"),
+    (AS, "server_state.client_id_header(&req)?", "server_state.authenticated_client(&req)?"),
+    (GCV, "server_state.client_id_header(&req)?", "server_state.authenticated_client(&req)?"),
+    (GS, "server_state.client_id_header(&req)?", "server_state.authenticated_client(&req)?"),
+    (SQL, "    fn new_connection(&self) -> anyhow::Result<Connection> {", "    fn connect(&self) -> anyhow::Result<Connection> {"),
+    (SQL, "        let con = o.new_connection()?;", "        let con = o.connect()?;"),
+    (SQL, "        let con = self.new_connection()?;", "        let con = self.connect()?;"),
+    (SQL, "    fn get_version_impl(\n", "    fn query_version(\n"),
+    (SQL, "        self.get_version_impl(\n            \"SELECT version_id, parent_version_id, history_segment FROM versions WHERE parent_version_id = ? AND client_id = ?\",", "        self.query_version(\n            \"SELECT version_id, parent_version_id, history_segment FROM versions WHERE parent_version_id = ? AND client_id = ?\","),
+    (SQL, "        self.get_version_impl(\n            \"SELECT version_id, parent_version_id, history_segment FROM versions WHERE version_id = ? AND client_id = ?\",", "        self.query_version(\n            \"SELECT version_id, parent_version_id, history_segment FROM versions WHERE version_id = ? AND client_id = ?\","),
+], "rename private helper functions (client_id_header, new_connection, get_version_impl)", props=None)
+
+neu("rename-private-types-and-fields", [
+    (SQL, ("all", "Txn"), "SqliteTxn"), (SQL, ("all", "StoredUuid"), "UuidText"), (SQL, ("all", "con"), "conn"), (SQL, ("all", "db_file"), "path"),
+    (MEM, ("all", "InnerTxn"), "MemTxn"), (MEM, ("all", "Inner"), "State"), (MEM, ("all", "guard"), "lock"),
+    (MEM, ("all", "clients"), "client_records"), (MEM, ("all", "children"), "child_index"),
+], "rename private structs (Txn, StoredUuid, InnerTxn, Inner) and private fields (con, db_file, guard, clients, children)")
+neu("rename-error-mappers-and-scope", [
+    (API, ("all", "server_error_to_actix"), "to_http_error"), (API, ("all", "failure_to_ise"), "internal_error"), (API, ("all", "api_scope"), "protocol_scope"),
+    (AV, ("all", "server_error_to_actix"), "to_http_error"), (AV, ("all", "failure_to_ise"), "internal_error"),
+    (AS, ("all", "server_error_to_actix"), "to_http_error"), (GCV, ("all", "server_error_to_actix"), "to_http_error"), (GS, ("all", "server_error_to_actix"), "to_http_error"),
+    (LIB, ("all", "api_scope"), "protocol_scope"),
+], "rename server_error_to_actix / failure_to_ise / api_scope")
+neu("rename-server-private-fields", [
+    (SRV, "    config: ServerConfig,\n    storage: Box<dyn Storage>,", "    settings: ServerConfig,\n    backend: Box<dyn Storage>,"),
+    (SRV, "        Self {\n            config,\n            storage: Box::new(storage),\n        }", "        Self {\n            settings: config,\n            backend: Box::new(storage),\n        }"),
+    (SRV, ("all", "self.storage"), "self.backend"), (SRV, ("all", "self.config"), "self.settings"),
+    (LIB, ("all", "server_state"), "shared"),
+], "rename private fields of Server (storage, config) and WebServer (server_state)")
+neu("rename-handler-params", [
+    (AV, ("all", "payload"), "stream"), (AV, ("all", "server_state"), "state"), (AV, ("all", "req"), "request"),
+    (AS, ("all", "payload"), "stream"),
+], "rename handler parameters")
